@@ -81,7 +81,30 @@ ENTRIES = {
    "argument snapshots before/after every call and result equality with the same call executed alone in a fresh interpreter, over generated histories and ordered pairs (all pairs in the thorough tier)",
    "fixed catalogue of representative calls; a mismatch is reported only after reproduction in a fresh interpreter"),
 }
+# generator families added after the sixth / seventh seeded rounds (DESIGN.md 8.2)
+EXTRA = {
+ "C01": "dense collections (all single substitutions of 1-3 founders) and alphabets whose letters differ only in case / blanks / Unicode normalisation",
+ "C02": "samples of 120,000-1,000,000 distinct elements with planted repeats; integer ids up to 1e15; categorical samples",
+ "C03": "both collections as tuple / array / Series with default, shifted, permuted or string index",
+ "C04": "dense collections; a prior search of the same sequences in another mode / radius before the judged call",
+ "C05": "bins=0 on every table against pc and the exact row-coincidence fraction; maxseqs at scale (up to 40,000 distinct sequences)",
+ "C06": "beyond enumeration: counts up to 2^31 and count vectors of up to 300,000 entries in five dtypes against the closed-form unique unbiased estimators (exact integers); categorical / Series / array samples",
+ "C07": "dense Hamming families of 229-687 sequences mixed with other lengths",
+ "C08": "keyword forwarding through **options, keyword-only, callable-object, undecorated-wrapper, partial and lambda callables, incl. explicit None values",
+ "C10": "the same object passed as both collections",
+ "C11": "runs of 127-300 equal or same-bin residues under several compressions; a custom distance not exact in float32",
+ "C12": "one caller-owned set shared between the utilities; repeated query sequences with the default reference",
+ "C13": "tables with repeating index labels",
+ "C14": "planted (300-6,000) and dense (229-687) collections with custom distances",
+ "C15": "metric weights up to 300 and 300-400-residue sequences (distances > 255); chain components and re-ordered neighbour lists; explicitly empty linkage_kws",
+ "C16": "symmetry on the same two objects; categorical Series with unused categories",
+ "C18": "cells in other letter case / with trailing blanks next to their originals",
+ "C19": "1,000-300,000 sequences with known counts for logo / regex / consensus; unsigned count arrays with zeros",
+ "C20": "raising CDR-metric calls, a failing fit followed by NaN-returning calls, a too-short colour-mapper list in the catalogue",
+}
 for _pid, (_tech, _text, _note) in ENTRIES.items():
+    if _pid in EXTRA:
+        _text = _text + "; also " + EXTRA[_pid]
     add(_pid, _tech,
         "Exploration: " + _text + ". Right level because the property is a for-all claim with an executable exact oracle; nothing beyond the explored bounds is established.",
         "Trusted base / assumptions: " + _note + "; Hypothesis generation seeded from VERIF_SEED.",
